@@ -560,18 +560,12 @@ func oracle(st *state.StateDB) clause {
 // A history is attributed to the first class it enters; the same predicates
 // are stated in Coq (Model/Proofs: pre).
 const (
-	F2 = "remove-validator"
-	F3 = "list-reloads-index"
 	F5 = "delegate-from-missing-account"
-	F6 = "isinvalid-truncation"
+	F7 = "stale-index-reload"
+	F8 = "copy-reindexes-removed-validator"
 )
 
 var two64 = new(big.Int).Lsh(big.NewInt(1), 64)
-
-// truncatedInvalid: IsInvalid() is true although the validator still holds tokens or stake
-func truncatedInvalid(v *state.Validator) bool {
-	return v.IsInvalid() && (v.Token.Sign() != 0 || v.Stake.Sign() != 0)
-}
 
 type runResult struct {
 	class     string // first finding class entered ("" = none)
@@ -626,8 +620,10 @@ func run(h *History, keepRaw bool, trace func(i int, o Op, hs *hasher, c clause)
 				}
 			}
 		case "remove":
-			if st.VerifC08Raw(vaddrs[o.A]).Present {
-				enter(F2)
+			// removing a validator that still holds delegations leaves the delegators pointing at nothing:
+			// callers must not do that (no business check in RemoveValidator)
+			if r := st.VerifC08Raw(vaddrs[o.A]); r.Present && !r.Deleted && len(r.Val.Delegations) > 0 {
+				res.undisc = true
 			}
 		case "delegate":
 			if v := peek(st, vaddrs[o.A]); v != nil && bz(o.Amt).Sign() != 0 {
@@ -652,23 +648,20 @@ func run(h *History, keepRaw bool, trace func(i int, o Op, hs *hasher, c clause)
 			if _, ok := revVj[o.Id]; !ok {
 				res.undisc = true // not a valid revision id
 			}
-		case "root", "commit":
-			for _, a := range sortedV {
-				if v := peek(st, a); v != nil && truncatedInvalid(v) {
-					enter(F6)
+		case "copy":
+			// Copy adds every address of validatorObjectsDirty to the copy's index, removed validators included
+			_, _, _, _, dirty := st.VerifC08Counters()
+			jd := st.VerifC08JournalDirties()
+			for _, a := range dirty {
+				if r := st.VerifC08Raw(a); r.Present && r.Deleted && !jd[a] {
+					enter(F8)
 				}
 			}
 		case "list":
+			// an empty in-memory index is reloaded from the trie although every validator may have been removed
 			ti, present := st.VerifC08TrieIndex()
-			mi := st.VerifC08Index()
-			if present && len(mi) > 0 {
-				same := len(ti) == len(mi)
-				for k := 0; same && k < len(ti); k++ {
-					same = ti[k] == mi[k]
-				}
-				if !same {
-					enter(F3)
-				}
+			if present && len(ti) > 0 && len(st.VerifC08Index()) == 0 {
+				enter(F7)
 			}
 		}
 		_, vjBefore, _, nextBefore, _ := st.VerifC08Counters()
@@ -760,7 +753,6 @@ func genHistory(r *vf.Rng, flavour int) *History {
 	w := newWorld()
 	steps := 10 + r.Intn(25) + r.Heavy(100)
 	allowFindings := flavour == 1 // flavour 0: stays inside the disciplined, finding-free class
-	removedPending := false
 	push := func(o Op) bool {
 		h.Ops = append(h.Ops, o)
 		p, _ := w.exec(o)
@@ -897,21 +889,14 @@ func genHistory(r *vf.Rng, flavour int) *History {
 			o = Op{K: "finalise"}
 		case x < 90:
 			o = Op{K: "root"}
-			removedPending = false
 		case x < 94:
 			o = Op{K: "commit"}
-			removedPending = false
 		case x < 96:
 			o = Op{K: "copy"}
-		case x < 98:
+		case x < 97:
 			o = Op{K: "list"}
 		default:
-			if !allowFindings || removedPending {
-				o = Op{K: "fund", D: d}
-			} else {
-				o = Op{K: "remove", A: a}
-				removedPending = true
-			}
+			o = Op{K: "remove", A: a}
 		}
 		if !allowFindings {
 			// keep the history outside every finding class: test the op on a dry classification
@@ -1058,7 +1043,11 @@ func gen(seed uint64, n int, outDir, corpusDir string, flavour int) {
 				res.Count("oracle:VIOLATION")
 				break
 			}
+			// inside a listed finding class: reported under the stable key of the class (known_findings.json)
 			known[cl]++
+			if known[cl] <= 3 {
+				res.OracleHits = append(res.OracleHits, History{What: cl, Ops: h.Ops[:rr.opsDone+boolInt(rr.panicked)], Comment: f})
+			}
 			res.Count("oracle:known-finding:" + cl)
 			break
 		}
